@@ -105,6 +105,8 @@ class C18(BtProp):
                 r = rng.random()
                 if r < 0.2 and ops:
                     ops.append("stop %d" % root)
+                elif r < 0.44 and r >= 0.4 and kind == "eitheror" and not shared:
+                    ops.append("unsetbb /c%d" % rng.randrange(k))      # a condition variable disappears (an event flag)
                 elif r < 0.4 and kind in ("eitheror", "eitheror2"):
                     if kind == "eitheror" and shared:
                         ops.append("setbb /m i:%d" % rng.randrange(k + 1))
@@ -135,7 +137,9 @@ class C18(BtProp):
         if kind == "oneshotdec":
             return self.oneshot_dec(sh, spec, obs)
         if kind == "eitheror":
-            return self.either_or(sh, spec, obs)
+            h = s.header[0].split()       # idiom eitheror <ns> <k> (<key> <path> <op> <value>)*k <subtrees...>
+            kk = int(h[3])
+            return self.either_or(sh, spec, obs, conds=[h[4 + 4 * j:8 + 4 * j] for j in range(kk)])
         if kind == "eitheror2":
             # two idioms with the same name and the default (private) namespace side by side: each one on its own
             # must behave as a lone either_or
@@ -224,12 +228,17 @@ class C18(BtProp):
         return self.oneshot_generic(obs, dec[1], dec[3][1], both, "OneShot decorator")
 
     @staticmethod
-    def either_or(sh, spec, obs):
+    def either_or(sh, spec, obs, conds=None):
         out = []
+        # the conditions come from the scenario (what the idiom was asked to build) when known, else from the check leaf;
+        # the chooser is the root's last child, an option's subtree the last child of its sequence
         xor = spec[3][0]
-        k = int(xor[2][1])
-        options = spec[3][1][3]
-        subs = [opt[3][-1][1] for opt in options]      # the option's subtree is the last child of its sequence
+        options = spec[3][-1][3]
+        k = len(options)
+        subs = [opt[3][-1][1] for opt in options]
+        if conds is None:
+            a0 = [str(x) for x in xor[2]]
+            conds = [a0[2 + 4 * j:6 + 4 * j] for j in range(int(a0[1]))]
         chosen = None
         prevW = {}
         prev = None
@@ -242,13 +251,12 @@ class C18(BtProp):
                 if fresh:
                     from props_bt import _get, _cmp
                     from common import val_parse
-                    a = [str(x) for x in xor[2]]
                     truth = []
                     for j in range(k):
-                        ck, cp, cop, cv = a[2 + 4 * j:6 + 4 * j]
+                        ck, cp, cop, cv = conds[j]
                         ok, v = _get(prevW, ck, cp)
                         truth.append(bool(ok and _cmp(cop, v, val_parse(cv))))
-                    if any(not _get(prevW, a[2 + 4 * j], a[3 + 4 * j])[0] for j in range(k)):
+                    if any(not _get(prevW, conds[j][0], conds[j][1])[0] for j in range(k)):
                         truth = [False] * k      # a missing condition variable fails the idiom before any choice
                     nt = sum(truth)
                     if nt == 1:
